@@ -54,9 +54,15 @@ type crashInfo struct {
 	prev     *vos.Mut
 	keys     []Key
 	probes   []Key
+	// allowedFn, if set, replaces the allowed-value sets derived from a
+	// sequential history (engine A+X: derived from a concurrent call history)
+	allowedFn func(k Key) ([][]byte, bool)
 }
 
 func (ci crashInfo) allowed(k Key) (vals [][]byte, absentOK bool) {
+	if ci.allowedFn != nil {
+		return ci.allowedFn(k)
+	}
 	for j := ci.flushed; j <= ci.inFlight; j++ {
 		m := ci.models[j+1]
 		if v, ok := m[string(k.Digest)]; ok {
